@@ -166,95 +166,95 @@ End Erase.
 
 (* ------------------------------------------------------------------ layout: __str__ + Writer *)
 Definition K (s : string) : ltok := LT (TId s).
-Definition O (s : string) : ltok := LT (TOp s).
+Definition OP (s : string) : ltok := LT (TOp s).
 Definition NI (z : Z) : ltok := LT (TInt z).
 (* ", ".join(...) *)
 Fixpoint join_comma (l : list (list ltok)) : list ltok :=
   match l with
   | [] => []
   | [x] => x
-  | x :: r => x ++ [O ","; LSp] ++ join_comma r
+  | x :: r => x ++ [OP ","; LSp] ++ join_comma r
   end.
 Definition l_ty (t : ty) : list ltok :=
   match t with
-  | Blob s a => [K "blob"; O "<"; NI s; O ":"; NI a; O ">"]
+  | Blob s a => [K "blob"; OP "<"; NI s; OP ":"; NI a; OP ">"]
   | _ => [K (ty_name t)]
   end.
 Definition l_binop (o : binop) : ltok :=
-  match o with Rol | Ror => K (binop_name o) | _ => O (binop_name o) end.
+  match o with Rol | Ror => K (binop_name o) | _ => OP (binop_name o) end.
 (* repr(float): a FLOAT lexeme, or the words inf / nan (identifiers for the lexer) *)
 Definition l_cst (c : rcst) : ltok :=
   match c with
   | RInt z => NI z
   | RFloat s => if String.eqb s "inf" || String.eqb s "nan" then K s else LT (TFloat s)
   end.
-Definition l_assign (t : ty) (n : string) : list ltok := l_ty t ++ [LSp; K n; LSp; O "="; LSp].
+Definition l_assign (t : ty) (n : string) : list ltok := l_ty t ++ [LSp; K n; LSp; OP "="; LSp].
 Definition l_args (args : list string) : list ltok :=
-  [O "("] ++ join_comma (map (fun a => [K a]) args) ++ [O ")"].
+  [OP "("] ++ join_comma (map (fun a => [K a]) args) ++ [OP ")"].
 Definition l_instr (i : rinstr) : list ltok :=
   match i with
   | RConst t n c => l_assign t n ++ [l_cst c]
   | RBinop t n a o b => l_assign t n ++ [K a; LSp; l_binop o; LSp; K b]
-  | RUnop t n o a => l_assign t n ++ [O (unop_name o); LSp; K a]
+  | RUnop t n o a => l_assign t n ++ [OP (unop_name o); LSp; K a]
   | RCast t n a => l_assign t n ++ [K "cast"; LSp; K a]
   | RLoad t n a => l_assign t n ++ [K "load"; LSp; K a]
-  | RStore x a => [K "store"; LSp; K x; O ","; LSp; K a]
+  | RStore x a => [K "store"; LSp; K x; OP ","; LSp; K a]
   | RAlloc t n s al => l_assign t n ++ [K "alloc"; LSp; NI s; LSp; K "bytes"; LSp; K "aligned";
                                         LSp; K "at"; LSp; NI al]
-  | RAddrOf t n a => l_assign t n ++ [O "&"; K a]
+  | RAddrOf t n a => l_assign t n ++ [OP "&"; K a]
   | RLit t n h => l_assign t n ++ [K "literal"; LSp; LT (TStr h)]
-  | RCopyBlob d s n => [K "memcpy"; O "("; K d; O ","; LSp; K s; O ","; LSp; NI n; O ")"]
+  | RCopyBlob d s n => [K "memcpy"; OP "("; K d; OP ","; LSp; K s; OP ","; LSp; NI n; OP ")"]
   | RPhi t n ins => l_assign t n ++ [K "phi"; LSp]
-                    ++ join_comma (map (fun p => [K (fst p); O ":"; LSp; K (snd p)]) ins)
-  | RUndef n => [K n; LSp; O "="; LSp; K "undefined"]
+                    ++ join_comma (map (fun p => [K (fst p); OP ":"; LSp; K (snd p)]) ins)
+  | RUndef n => [K n; LSp; OP "="; LSp; K "undefined"]
   | RCallF t n c args => l_assign t n ++ [K "call"; LSp; K c] ++ l_args args
   | RCallP c args => [K "call"; LSp; K c] ++ l_args args
   | RJump b => [K "jmp"; LSp; K b]
-  | RCJump a c b y n => [K "cjmp"; LSp; K a; LSp; O (cond_name c); LSp; K b; LSp; O "?"; LSp; K y;
-                         LSp; O ":"; LSp; K n]
+  | RCJump a c b y n => [K "cjmp"; LSp; K a; LSp; OP (cond_name c); LSp; K b; LSp; OP "?"; LSp; K y;
+                         LSp; OP ":"; LSp; K n]
   | RReturn a => [K "return"; LSp; K a]
   | RExit => [K "exit"]
   end.
 Definition l_block (k : rblock) : list ltok :=
-  [LInd 2; K (rb_name k); O ":"; LSp; O "{"; LNl]
-  ++ flat_map (fun i => [LInd 4] ++ l_instr i ++ [O ";"; LNl]) (rb_ins k)
-  ++ [LInd 2; O "}"; LNl; LNl].
+  [LInd 2; K (rb_name k); OP ":"; LSp; OP "{"; LNl]
+  ++ flat_map (fun i => [LInd 4] ++ l_instr i ++ [OP ";"; LNl]) (rb_ins k)
+  ++ [LInd 2; OP "}"; LNl; LNl].
 Definition l_func (f : rfunc) : list ltok :=
   [K (binding_name (rf_binding f)); LSp]
   ++ match rf_ret f with
      | Some t => [K "function"; LSp] ++ l_ty t ++ [LSp]
      | None => [K "procedure"; LSp]
      end
-  ++ [K (rf_name f); O "("]
+  ++ [K (rf_name f); OP "("]
   ++ join_comma (map (fun p => l_ty (fst p) ++ [LSp; K (snd p)]) (rf_params f))
-  ++ [O ")"; LSp; O "{"; LNl]
+  ++ [OP ")"; LSp; OP "{"; LNl]
   ++ flat_map l_block (rf_blocks f)
-  ++ [O "}"; LNl].
+  ++ [OP "}"; LNl].
 Definition l_ext (e : ext) : list ltok :=
   match e with
   | EVar n => [K "external"; LSp; K "variable"; LSp; K n]
-  | EFunc n args r => [K "external"; LSp; K "function"; LSp] ++ l_ty r ++ [LSp; K n; O "("]
-                      ++ join_comma (map l_ty args) ++ [O ")"]
-  | EProc n args => [K "external"; LSp; K "procedure"; LSp; K n; O "("]
-                    ++ join_comma (map l_ty args) ++ [O ")"]
+  | EFunc n args r => [K "external"; LSp; K "function"; LSp] ++ l_ty r ++ [LSp; K n; OP "("]
+                      ++ join_comma (map l_ty args) ++ [OP ")"]
+  | EProc n args => [K "external"; LSp; K "procedure"; LSp; K n; OP "("]
+                    ++ join_comma (map l_ty args) ++ [OP ")"]
   end.
 Definition l_init (i : rinit) : list ltok :=
-  match i with RBytes h => [LT (TStr h)] | RRef s => [O "&"; K s] end.
+  match i with RBytes h => [LT (TStr h)] | RRef s => [OP "&"; K s] end.
 Definition l_var (g : rvar) : list ltok :=
-  [K (binding_name (rv_binding g)); LSp; K "variable"; LSp; K (rv_name g); LSp; O "(";
-   NI (rv_amount g); LSp; K "bytes"; LSp; K "aligned"; LSp; K "at"; LSp; NI (rv_align g); O ")"]
+  [K (binding_name (rv_binding g)); LSp; K "variable"; LSp; K (rv_name g); LSp; OP "(";
+   NI (rv_amount g); LSp; K "bytes"; LSp; K "aligned"; LSp; K "at"; LSp; NI (rv_align g); OP ")"]
   ++ match rv_value g with
      | None => []
-     | Some l => [LSp; O "="; LSp; O "["] ++ join_comma (map l_init l) ++ [O "]"]
+     | Some l => [LSp; OP "="; LSp; OP "["] ++ join_comma (map l_init l) ++ [OP "]"]
      end.
 Definition l_item (x : ritem) : list ltok :=
   [LNl] ++ match x with
-           | RExt e => l_ext e ++ [O ";"; LNl]
+           | RExt e => l_ext e ++ [OP ";"; LNl]
            | RVar g => l_var g ++ [LNl]
            | RFunc f => l_func f
            end.
 Definition layout (m : rmodul) : list ltok :=
-  [K "module"; LSp; K (rm_name m); O ";"; LNl] ++ flat_map l_item (rm_items m).
+  [K "module"; LSp; K (rm_name m); OP ";"; LNl] ++ flat_map l_item (rm_items m).
 
 (* ------------------------------------------------------------------ lex: tokenize *)
 Definition is_digit (c : ascii) : bool := let n := nat_of_ascii c in (48 <=? n)%nat && (n <=? 57)%nat.
@@ -300,7 +300,7 @@ Definition lex_number (c : tcfg) (sg : string) (s : string) : option (token * st
           let '(d2, r2) := span is_digit r1 in
           match d2 with
           | EmptyString => Some (with_exp d r int_tok)
-          | _ => let m := d ++ "." ++ d2 in Some (with_exp m r2 (TFloat (sg ++ m), r2))
+          | _ => let m := (d ++ "." ++ d2)%string in Some (with_exp m r2 (TFloat (sg ++ m), r2))
           end
       | _ => Some (with_exp d r int_tok)
       end
@@ -581,3 +581,336 @@ Definition parse_module (ts : list token) : result rmodul :=
   items <- parse_items N ts ;; Ok (mk_rmodul n items).
 End Parse.
 Definition parse (c : tcfg) (ts : list token) : result rmodul := parse_module c (S (List.length ts)) ts.
+
+(* ------------------------------------------------------------------ resolve: scopes, objects *)
+(* Python objects over the id-based syntax, as in Model/IrJson.v: a defined value = its vref +
+   type; the placeholder ir.Undefined(name, ty) kept in Reader.undefined_values = [Unres name]
+   (at most one per name at a time); a Block object = its name (Reader.block_map of the function
+   scope), its bid = position of its definition in the function. *)
+Record tst := mk_tst {
+  ts_glob : vmap;                  (* scopes[0].value_map: externals, variables, subroutines *)
+  ts_loc : vmap;                   (* scopes[1].value_map: parameters and instructions *)
+  ts_pend : list (string * ty);    (* undefined_values: name -> type of the placeholder *)
+  ts_next : positive;              (* next vid of the current subroutine *)
+  ts_names : list string;          (* SubRoutine.defined_names of the current subroutine *)
+  ts_funcs : list func;            (* subroutines already added to the module *)
+  ts_blocks : list block;          (* blocks already completed in the current subroutine *)
+  ts_ins : list instr }.           (* instructions already added to the current block *)
+Definition tst0 := mk_tst [] [] [] 1 [] [] [] [].
+
+Fixpoint pset (s : string) (t : ty) (l : list (string * ty)) : list (string * ty) :=
+  match l with [] => [] | (k, v) :: r => if String.eqb s k then (k, t) :: r else (k, v) :: pset s t r end.
+
+(* Reader.find_value(name, ty) *)
+Definition find_value (c : tcfg) (name : string) (dty : ty) (st : tst) : (vref * ty) * tst :=
+  match vlookup name (ts_loc st) with
+  | Some x => (x, st)
+  | None =>
+      match vlookup name (ts_glob st) with
+      | Some x => (x, st)
+      | None =>
+          match plookup name (ts_pend st) with
+          | Some t =>
+              if fx_fwd c then
+                ((Unres name, dty), mk_tst (ts_glob st) (ts_loc st) (pset name dty (ts_pend st)) (ts_next st)
+                                           (ts_names st) (ts_funcs st) (ts_blocks st) (ts_ins st))
+              else ((Unres name, t), st)
+          | None => ((Unres name, dty),
+                     mk_tst (ts_glob st) (ts_loc st) ((name, dty) :: ts_pend st) (ts_next st)
+                            (ts_names st) (ts_funcs st) (ts_blocks st) (ts_ins st))
+          end
+      end
+  end.
+
+Definition uses_old (name : string) (i : instr) : bool := existsb (is_old name) (instr_uses i).
+Definition func_uses_old (name : string) (f : func) : bool := existsb (uses_old name) (func_instrs f).
+
+(* Reader.define_value(value): [r] = the new object, [local] = which scope is on top,
+   [self] = the instruction being defined (built, not yet in its block) *)
+Definition define_value (name : string) (r : vref) (t : ty) (local : bool) (self : option instr)
+           (st : tst) : result (option instr * tst) :=
+  '(self1, st1) <-
+    match plookup name (ts_pend st) with
+    | None => Ok (self, st)
+    | Some _ =>
+        _ <- check (negb (match r with Loc _ | Param _ => existsb (func_uses_old name) (ts_funcs st)
+                                | _ => false end)) (OtherI 79) ;;
+        fs <- mapM (patch_func name r) (ts_funcs st) ;;
+        bs <- mapM (patch_block name r) (ts_blocks st) ;;
+        ins <- mapM (patch_instr name r) (ts_ins st) ;;
+        s1 <- match self with
+              | None => Ok None
+              | Some i => i' <- patch_instr name r i ;; Ok (Some i')
+              end ;;
+        Ok (s1, mk_tst (ts_glob st) (ts_loc st) (premove name (ts_pend st)) (ts_next st)
+                       (ts_names st) fs bs ins)
+    end ;;
+  if local
+  then Ok (self1, mk_tst (ts_glob st1) ((name, (r, t)) :: ts_loc st1) (ts_pend st1) (ts_next st1)
+                         (ts_names st1) (ts_funcs st1) (ts_blocks st1) (ts_ins st1))
+  else Ok (self1, mk_tst ((name, (r, t)) :: ts_glob st1) (ts_loc st1) (ts_pend st1) (ts_next st1)
+                         (ts_names st1) (ts_funcs st1) (ts_blocks st1) (ts_ins st1)).
+
+(* block.add_instruction (+ SubRoutine.make_unique_name for values) *)
+Definition add_ins (i : instr) (st : tst) : result tst :=
+  _ <- check (negb (match List.rev (ts_ins st) with x :: _ => is_terminator x | [] => false end))
+             AssertionError ;;
+  match instr_def i with
+  | Some d =>
+      _ <- check (negb (mem_str (def_name d) (ts_names st))) (OtherI 77) ;;
+      Ok (mk_tst (ts_glob st) (ts_loc st) (ts_pend st) (Pos.succ (ts_next st))
+                 (ts_names st ++ [def_name d]) (ts_funcs st) (ts_blocks st) (ts_ins st ++ [i]))
+  | None =>
+      Ok (mk_tst (ts_glob st) (ts_loc st) (ts_pend st) (ts_next st) (ts_names st) (ts_funcs st)
+                 (ts_blocks st) (ts_ins st ++ [i]))
+  end.
+(* parse_statement: ins = parse_assignment(); define_value(ins); ...; block.add_instruction(ins) *)
+Definition finish_val (i : instr) (st : tst) : result tst :=
+  match instr_def i with
+  | None => Internal AssertionError
+  | Some (v, n, t) =>
+      '(self, st1) <- define_value n (Loc v) t true (Some i) st ;;
+      match self with Some i' => add_ins i' st1 | None => Internal AssertionError end
+  end.
+
+Section Resolve.
+Variable c : tcfg.
+Variable fp : string -> option Z.
+Variable bmap : list (string * bid).   (* blocks of the current function *)
+
+Definition block_ref (n : string) : result bid :=
+  match blookup n bmap with Some b => Ok b | None => Internal (OtherI 78) end.
+Fixpoint find_args (l : list string) (st : tst) : list vref * tst :=
+  match l with
+  | [] => ([], st)
+  | n :: r => let '((a, _), st1) := find_value c n Ptr st in
+              let '(rest, st2) := find_args r st1 in (a :: rest, st2)
+  end.
+Fixpoint phi_inputs (t : ty) (l : list (string * string)) (acc : list (bid * vref)) (st : tst)
+  : result (list (bid * vref) * tst) :=
+  match l with
+  | [] => Ok (acc, st)
+  | (bn, vn) :: r =>
+      b <- block_ref bn ;;
+      let '((a, ta), st1) := find_value c vn t st in
+      _ <- check (ty_eqb ta t) ValueErrorI ;;
+      let acc' := if mem_pos b (map fst acc)
+                  then map (fun p => if Pos.eqb (fst p) b then (b, a) else p) acc
+                  else acc ++ [(b, a)] in
+      phi_inputs t r acc' st1
+  end.
+
+Definition resolve_instr (i : rinstr) (st : tst) : result tst :=
+  let v := ts_next st in
+  match i with
+  | RConst t n k =>
+      k' <- match k with
+            | RInt z => Ok (CInt z)
+            | RFloat s => match fp s with Some b => Ok (CFloat b) | None => Internal ValueErrorI end
+            end ;;
+      finish_val (IConst v n t k') st
+  | RBinop t n a o b =>
+      let d := if fx_fwd c then t else I32 in
+      let '((a', ta), st1) := find_value c a d st in
+      let '((b', tb), st2) := find_value c b d st1 in
+      _ <- check (ty_eqb ta t) TypeError ;; _ <- check (ty_eqb tb t) TypeError ;;
+      finish_val (IBinop v n t o a' b') st2
+  | RUnop t n o a =>
+      let '((a', ta), st1) := find_value c a (if fx_fwd c then t else Ptr) st in
+      _ <- check (ty_eqb ta t) TypeError ;;
+      finish_val (IUnop v n t o a') st1
+  | RCast t n a =>
+      let '((a', _), st1) := find_value c a Ptr st in finish_val (ICast v n t a') st1
+  | RLoad t n a =>
+      let '((a', ta), st1) := find_value c a Ptr st in
+      _ <- check (ty_eqb ta Ptr) AssertionError ;;
+      _ <- check (negb (ty_is_blob t)) ValueErrorI ;;
+      finish_val (ILoad v n t a' false) st1
+  | RStore x a =>
+      let '((x', _), st1) := find_value c x Ptr st in
+      let '((a', ta), st2) := find_value c a Ptr st1 in
+      _ <- check (ty_eqb ta Ptr) TypeError ;;
+      add_ins (IStore x' a' false) st2
+  | RAlloc _ n s al =>
+      _ <- check (negb (s =? 0)) ValueErrorI ;;
+      finish_val (IAlloc v n s al) st
+  | RAddrOf t n a =>
+      let '((a', ta), st1) := find_value c a (Blob 1 1) st in
+      _ <- check (ty_is_blob ta) TypeError ;;
+      _ <- check (ty_eqb t Ptr) AssertionError ;;
+      finish_val (IAddrOf v n a') st1
+  | RLit _ n h =>
+      match unhexlify h with
+      | Ok d => finish_val (ILit v n d) st
+      | _ => Internal ValueErrorI
+      end
+  | RPhi t n ins =>
+      '(l, st1) <- phi_inputs t ins [] st ;;
+      finish_val (IPhi v n t l) st1
+  | RCallF t n f args =>
+      let '((f', tf), st1) := find_value c f Ptr st in
+      let '(args', st2) := find_args args st1 in
+      _ <- check (ty_eqb tf Ptr) ValueErrorI ;;
+      finish_val (ICallF v n t f' args') st2
+  | RCallP f args =>
+      let '((f', tf), st1) := find_value c f Ptr st in
+      let '(args', st2) := find_args args st1 in
+      _ <- check (ty_eqb tf Ptr) ValueErrorI ;;
+      add_ins (ICallP f' args') st2
+  | RJump b => b' <- block_ref b ;; add_ins (IJump b') st
+  | RCJump a o b y n =>
+      let '((a', _), st1) := find_value c a Ptr st in
+      let '((b', _), st2) := find_value c b Ptr st1 in
+      y' <- block_ref y ;; n' <- block_ref n ;;
+      add_ins (ICJump a' o b' y' n') st2
+  | RReturn a =>
+      let '((a', _), st1) := find_value c a Ptr st in add_ins (IReturn a') st1
+  | RExit => add_ins IExit st
+  | RCopyBlob _ _ _ | RUndef _ => Internal NotImplemented   (* never produced by [parse] *)
+  end.
+Fixpoint resolve_instrs (l : list rinstr) (st : tst) : result tst :=
+  match l with [] => Ok st | i :: r => st1 <- resolve_instr i st ;; resolve_instrs r st1 end.
+End Resolve.
+
+Fixpoint number_names (p : positive) (l : list string) : list (string * bid) :=
+  match l with [] => [] | n :: r => (n, p) :: number_names (Pos.succ p) r end.
+
+Section ResolveM.
+Variable c : tcfg.
+Variable fp : string -> option Z.
+
+(* parse_block: function.add_block(block) (make_unique_name), then the statements *)
+Definition resolve_block (bmap : list (string * bid)) (k : rblock) (st : tst) : result tst :=
+  _ <- check (negb (mem_str (rb_name k) (map b_name (ts_blocks st)))) AssertionError ;;
+  _ <- check (negb (mem_str (rb_name k) (ts_names st))) (OtherI 77) ;;
+  b <- match blookup (rb_name k) bmap with Some b => Ok b | None => Internal (OtherI 78) end ;;
+  let st0 := mk_tst (ts_glob st) (ts_loc st) (ts_pend st) (ts_next st) (ts_names st ++ [rb_name k])
+                    (ts_funcs st) (ts_blocks st) [] in
+  st1 <- resolve_instrs c fp bmap (rb_ins k) st0 ;;
+  Ok (mk_tst (ts_glob st1) (ts_loc st1) (ts_pend st1) (ts_next st1) (ts_names st1) (ts_funcs st1)
+             (ts_blocks st1 ++ [mk_block b (rb_name k) (ts_ins st1)]) []).
+Fixpoint resolve_blocks (bmap : list (string * bid)) (l : list rblock) (st : tst) : result tst :=
+  match l with [] => Ok st | k :: r => st1 <- resolve_block bmap k st ;; resolve_blocks bmap r st1 end.
+Fixpoint define_params (l : list (ty * string)) (k : nat) (st : tst) : result tst :=
+  match l with
+  | [] => Ok st
+  | (t, n) :: r => '(_, st1) <- define_value n (Param k) t true None st ;; define_params r (S k) st1
+  end.
+Definition resolve_func (f : rfunc) (st : tst) : result tst :=
+  '(_, st1) <- define_value (rf_name f) (Glob (rf_name f)) Ptr false None st ;;
+  let st2 := mk_tst (ts_glob st1) [] (ts_pend st1) 1 [] (ts_funcs st1) [] [] in
+  st3 <- define_params (rf_params f) O st2 ;;
+  let bmap := number_names 1 (map rb_name (rf_blocks f)) in
+  st4 <- resolve_blocks bmap (rf_blocks f) st3 ;;
+  let fn := mk_func (rf_name f) (rf_binding f) (rf_ret f)
+                    (map (fun p => (snd p, fst p)) (rf_params f)) (ts_blocks st4) in
+  Ok (mk_tst (ts_glob st4) [] (ts_pend st4) 1 [] (ts_funcs st4 ++ [fn]) [] []).
+
+Definition resolve_init (i : rinit) : result init :=
+  match i with
+  | RBytes h => match unhexlify h with Ok d => Ok (InitBytes d) | _ => Internal ValueErrorI end
+  | RRef s => Ok (InitRef Ptr s)
+  end.
+Definition resolve_var (g : rvar) : result gvar :=
+  v <- match rv_value g with
+       | None => Ok None
+       | Some l => l' <- mapM resolve_init l ;; Ok (Some l')
+       end ;;
+  Ok (mk_gvar (rv_name g) (rv_binding g) (rv_amount g) (rv_align g) v).
+
+Fixpoint resolve_items (l : list ritem) (exts : list ext) (vars : list gvar) (st : tst)
+  : result (list ext * list gvar * tst) :=
+  match l with
+  | [] => Ok (exts, vars, st)
+  | RExt e :: r =>
+      '(_, st1) <- define_value (ext_name e) (Glob (ext_name e)) Ptr false None st ;;
+      resolve_items r (exts ++ [e]) vars st1
+  | RVar g :: r =>
+      g' <- resolve_var g ;;
+      '(_, st1) <- define_value (rv_name g) (Glob (rv_name g)) Ptr false None st ;;
+      resolve_items r exts (vars ++ [g']) st1
+  | RFunc f :: r =>
+      st1 <- resolve_func f st ;; resolve_items r exts vars st1
+  end.
+Definition resolve (m : rmodul) : result modul :=
+  '(exts, vars, st) <- resolve_items (rm_items m) [] [] tst0 ;;
+  Ok (mk_modul (rm_name m) exts vars (ts_funcs st)).
+
+(* Reader.read on the characters *)
+Definition read_tokens (ts : list token) : result modul := r <- parse c ts ;; resolve r.
+Definition read_text (s : string) : result modul := ts <- lex c s ;; read_tokens ts.
+End ResolveM.
+
+(* ------------------------------------------------------------------ printer on modules *)
+Definition print_layout (c : tcfg) (fr : Z -> string) (m : modul) : list ltok := layout (erase fr c m).
+Definition print_tokens (c : tcfg) (fr : Z -> string) (m : modul) : list token := toks (print_layout c fr m).
+Definition print_text (c : tcfg) (fr : Z -> string) (m : modul) : string := render (print_layout c fr m).
+(* Variable.__str__ of the fixed code refuses a reference part whose type is not ptr
+   (NotImplementedError, as the code generator does); Writer output otherwise always exists *)
+Definition print_ok (c : tcfg) (m : modul) : bool :=
+  negb (fx_init c) ||
+  forallb (fun g => match g_value g with
+                    | Some l => forallb (fun i => match i with InitRef t _ => ty_eqb t Ptr | _ => true end) l
+                    | None => true
+                    end) (m_vars m).
+
+(* what the text does not carry: volatile flags, the order of phi inputs (printed sorted by
+   block name), and (orig) the initial values of global variables *)
+Definition sort_phi (f : func) (ins : list (bid * vref)) : list (bid * vref) :=
+  let key := fun p : bid * vref => (block_name f (fst p), ref_name f (snd p)) in
+  fold_right (fun p acc =>
+                (fix ins (l : list (bid * vref)) :=
+                   match l with
+                   | [] => [p]
+                   | q :: r => if pair_leb (key p) (key q) then p :: l else q :: ins r
+                   end) acc) [] ins.
+Definition norm_instr (f : func) (i : instr) : instr :=
+  match i with
+  | ILoad v n t a _ => ILoad v n t a false
+  | IStore x a _ => IStore x a false
+  | IPhi v n t ins => IPhi v n t (sort_phi f ins)
+  | _ => i
+  end.
+Definition norm_func (f : func) : func :=
+  mk_func (f_name f) (f_binding f) (f_ret f) (f_params f)
+          (map (fun k => mk_block (b_id k) (b_name k) (map (norm_instr f) (b_ins k))) (f_blocks f)).
+Definition norm_var (c : tcfg) (g : gvar) : gvar :=
+  mk_gvar (g_name g) (g_binding g) (g_amount g) (g_align g) (if fx_init c then g_value g else None).
+Definition norm (c : tcfg) (m : modul) : modul :=
+  mk_modul (m_name m) (m_externals m) (map (norm_var c) (m_vars m)) (map norm_func (m_funcs m)).
+
+(* association-list instances of the float parameters (used by the check's cases) *)
+Fixpoint fr_of (l : list (Z * string)) (b : Z) : string :=
+  match l with [] => "?" | (k, s) :: r => if k =? b then s else fr_of r b end.
+Fixpoint fp_of (l : list (Z * string)) (s : string) : option Z :=
+  match l with [] => None | (k, x) :: r => if String.eqb x s then Some k else fp_of r s end.
+
+(* ------------------------------------------------------------------ values for the check's cases *)
+Definition token_val (fp : string -> option Z) (t : token) : val :=
+  match t with
+  | TId s => VT [VS "ID"; VS s]
+  | TInt z => VT [VS "INT"; VZ z]
+  | TFloat s => VT [VS "FLOAT"; match fp s with Some b => VZ b | None => VNone end]
+  | TStr s => VT [VS "STRING"; VS s]
+  | TOp s => VT [VS s; VS s]
+  end.
+(* texts travel as lists of lines (every line of the Writer ends in a newline) *)
+Fixpoint lines_of (acc : string) (s : string) : list string :=
+  match s with
+  | EmptyString => match acc with EmptyString => [] | _ => [acc] end
+  | String ch r => if Ascii.eqb ch newline_char then acc :: lines_of EmptyString r
+                   else lines_of (acc ++ String ch EmptyString)%string r
+  end.
+Definition unlines (l : list string) : string := String.concat "" (map (fun s => (s ++ nl)%string) l).
+Definition case_print (c : tcfg) (tr : list (Z * string)) (m : modul) : val :=
+  if print_ok c m then VOk (VL (map VS (lines_of EmptyString (print_text c (fr_of tr) m)))) else VInternal.
+Definition case_lex (c : tcfg) (tp : list (Z * string)) (l : list string) : val :=
+  toval (ts <- lex c (unlines l) ;; Ok (map (token_val (fp_of tp)) ts)).
+Definition case_read (c : tcfg) (tp : list (Z * string)) (l : list string) : val :=
+  toval (read_text c (fp_of tp) (unlines l)).
+(* printer and reader agree on the token level: lex (text) = tokens of the layout *)
+Definition case_lexprint (c : tcfg) (tr : list (Z * string)) (m : modul) : bool :=
+  match lex c (print_text c (fr_of tr) m) with
+  | Ok ts => if list_eq_dec token_eq_dec ts (print_tokens c (fr_of tr) m) then true else false
+  | _ => false
+  end.
